@@ -474,7 +474,15 @@ func z8Sig(f string, sc z8Scenario) string {
 	}
 	mech := "single-writer"
 	if sc.Kind == "concurrent" {
-		mech = "concurrent-writers"
+		// writers that all deliver correct content must never hurt each other; the recorded finding needs a failing writer
+		mech = "concurrent-good-writers"
+		for _, t := range sc.Threads {
+			for _, o := range t {
+				if (o.Kind == "put" || o.Kind == "import") && o.Src.Kind != "good" {
+					mech = "concurrent-writers"
+				}
+			}
+		}
 	}
 	for _, t := range sc.Threads {
 		for _, o := range t {
